@@ -522,6 +522,49 @@ def peephole_guards(ctx):
                         'out-of-range constant conversion is folded at '
                         'compile time instead of failing at run time',
                         f.file, n.line)
+            continue
+        # the value that was tested is the value that is pushed: between
+        # the can_hold(x) test and the push, x changes only by the type
+        # constructor (py_type); rounding after the test could leave the
+        # range again (2147483647.6 passes `< 2**31`, rounds to 2**31)
+        for t, lab in conds:
+            if lab != 'true':
+                continue
+            calls = [c for c in ast.walk(t.ast.test)
+                     if isinstance(c, ast.Call) and
+                     isinstance(c.func, ast.Attribute) and
+                     c.func.attr == 'can_hold' and c.args and
+                     isinstance(c.args[0], ast.Name)]
+            for c in calls:
+                x = c.args[0].id
+                body = t.ast.body
+                changed = []
+                for st in body:
+                    if st is n.ast:
+                        break
+                    for a in ast.walk(st):
+                        if isinstance(a, (ast.Assign, ast.AugAssign)):
+                            tg = a.targets if isinstance(a, ast.Assign) \
+                                else [a.target]
+                            if any(isinstance(g, ast.Name) and g.id == x
+                                   for g in tg):
+                                v2 = a.value
+                                ok = isinstance(v2, ast.Call) and \
+                                    isinstance(v2.func, ast.Attribute) and \
+                                    v2.func.attr == 'py_type'
+                                if not ok:
+                                    changed.append(a)
+                c2 = construct + ':tested-value-is-pushed'
+                ctx.instance(rule, c2, sample={'changed_after_test':
+                                               [unparse(a) for a in changed]})
+                for a in changed:
+                    ctx.finding(rule, c2,
+                                f'after the can_hold({x}) test the value is '
+                                f'changed by `{unparse(a)[:50]}` before it '
+                                f'is pushed: a value that passes the test '
+                                f'can leave the range again (rounding up at '
+                                f'the upper bound) and the assembler then '
+                                f'fails on the operand', f.file, a.lineno)
     ctx.floor('push+conv fold sites', n_sites, 1)
 
 
